@@ -29,6 +29,11 @@ invariant chain `Lemmas/F/Placeholders*.lean` holds for every value of the param
 1. `C10X_partial_all`: end to end, all eleven flags.
 2. `C10X_leak_colon_abbr_rawhtml`: the hypothesis on the abbreviations is needed for the new keys as well.
 
+(Worker amp: the chain now has a third parameter, `HtmlBound.amp` — does the character domain admit `&`? —, and its
+`HtmlBound.h` is the length of the raw-HTML stash BEHIND the inline stage.  This theorem is the instance `amp = false`, where
+the inline stage leaves the raw-HTML stash alone; `Props/C10XAllAmp.lean` has the theorem for sources with ampersands,
+`C10X_partial_all_amp`, where the entity pattern writes raw-HTML placeholders of its own.)
+
 Vocabulary: `Spec/F/*.lean`; helper lemmas: `Lemmas/F/Placeholders*.lean` (composition: `Lemmas/F/PlaceholdersXAllF.lean`).
 Core Lean only.
 -/
